@@ -12,6 +12,11 @@
     predicts a label that occurs among, and has maximal weight among, the training samples
     reaching it; importances non-negative and summing to one when there is a split; no mergeable
     sibling leaves.
+    Weights.  All weight statements are about the EXACT (rational / real) sample weights.  The code
+    compares f32 running sums; [rp_wslack P] is the stated allowance for their rounding, as a share
+    of the weight of the node in question: 0 for unit and dyadic sample weights (all f32 sums exact;
+    then the statements are the exact ones, [exact_weights_need_no_allowance]), n * 2^-23 for n
+    samples with arbitrary f32 weights (C14/Corr.v [wslack]).
     T2 (split search): [best_split] is the Gallina transliteration of the search for the best
     split of one node (for every feature the sweep over its presorted column); [split_candidate
     .. mask tab f sv i] (C14/ProofsSplit.v) says declaratively whether the split of feature [f]
@@ -41,15 +46,17 @@ Theorem no_node_deeper_than_max_depth : forall P imp itol smp t imps m s,
   tree_spec P imp itol smp t imps -> rp_maxdepth P = Some m -> subtree s t -> (tdepth s <= m)%nat.
 Proof. intros P imp itol smp t imps m s (_ & H & _) Hm Hs. exact (spec_depth_le P imp t smp s m H Hm Hs). Qed.
 
-(** every split node, at whatever path, honours min_weight_split, min_weight_leaf and
-    min_impurity_decrease for the training samples routed to it, and reports the real decrease *)
+(** every split node, at whatever path, splits on an existing feature, honours min_weight_split,
+    min_weight_leaf (up to the rounding allowance) and min_impurity_decrease for the training
+    samples routed to it, and reports the real decrease *)
 Theorem split_nodes_honour_limits : forall P imp itol smp t imps path d f thr dec l r,
   tree_spec P imp itol smp t imps -> subtree_at t path = Some (Node d f thr dec l r) ->
   let S := samples_at (rp_le P) t smp path in
   let SL := rleft (rp_le P) f thr S in
   let SR := rright (rp_le P) f thr S in
-  d = length path /\
-  rp_mws P <= INR (length S) /\ rp_mwl P <= rweight SL /\ rp_mwl P <= rweight SR /\
+  d = length path /\ (f < rp_nfeat P)%nat /\
+  rp_mws P <= INR (length S) /\
+  rp_mwl P <= rweight SL + rp_wslack P * rweight S /\ rp_mwl P <= rweight SR + rp_wslack P * rweight S /\
   rp_mid P <= dec /\
   match imp with
   | Some g => Rabs (dec - rdecrease g (rp_ncls P) S SL SR) <= rp_tol P
@@ -77,8 +84,26 @@ Theorem training_sample_reaches_majority_leaf : forall P imp itol smp t imps s,
   In s L /\
   (forall s', In s' L <-> In s' smp /\ route R_ops (rp_le P) t (rs_x s') = route R_ops (rp_le P) t (rs_x s)) /\
   (exists s', In s' L /\ rs_y s' = p) /\
-  (forall c, rwfreq L c <= rwfreq L p).
+  (forall c, rwfreq L c <= rwfreq L p + rp_wslack P * rweight L).
 Proof. exact tree_spec_training. Qed.
+
+(** with exactly summable sample weights (allowance 0) the limits and the majority are the exact ones *)
+Theorem exact_weights_need_no_allowance : forall P imp itol smp t imps,
+  tree_spec P imp itol smp t imps -> rp_wslack P = 0 ->
+  (forall path d f thr dec l r, subtree_at t path = Some (Node d f thr dec l r) ->
+     let S := samples_at (rp_le P) t smp path in
+     rp_mwl P <= rweight (rleft (rp_le P) f thr S) /\ rp_mwl P <= rweight (rright (rp_le P) f thr S)) /\
+  (forall s, In s smp ->
+     let L := leaf_samples (rp_le P) t smp (rs_x s) in
+     forall c, rwfreq L c <= rwfreq L (predict R_ops (rp_le P) t (rs_x s))).
+Proof. exact tree_spec_exact_weights. Qed.
+
+(** stated directly on the checker: a tree the checker accepts predicts, for every query point, the
+    label of some training sample *)
+Theorem predicted_labels_seen_in_training : forall P gc itol smp t imps,
+  chk_tree P gc itol smp t imps = 0%N ->
+  forall x : list R, In (predict R_ops (qp_le P) (tmap Q2R t) x) (map qs_y smp).
+Proof. exact chk_tree_predict_label. Qed.
 
 (** the leaves partition feature space: every point lies in the region of exactly one leaf, the one
     prediction descends to - for every tree, both comparison rules and every arithmetic *)
@@ -103,10 +128,14 @@ Theorem prune_preserves_spec : forall P imp t smp depth,
   node_spec P imp smp depth t -> node_spec P imp smp depth (fst (prune t)).
 Proof. exact prune_spec. Qed.
 
-Theorem prune_preserves_modal : forall le f thr smp a k,
-  (forall c, (c < k)%nat -> rwfreq (rleft le f thr smp) c <= rwfreq (rleft le f thr smp) a) ->
-  (forall c, (c < k)%nat -> rwfreq (rright le f thr smp) c <= rwfreq (rright le f thr smp) a) ->
-  forall c, (c < k)%nat -> rwfreq smp c <= rwfreq smp a.
+(** merging two sibling leaves that predict [a]: if [a] is a most frequent label on both sides (up
+    to the share [sl] of each side's weight; sl = 0: exactly), it is one of the union *)
+Theorem prune_preserves_modal : forall le f thr smp a k sl,
+  (forall c, (c < k)%nat -> rwfreq (rleft le f thr smp) c
+                            <= rwfreq (rleft le f thr smp) a + sl * rweight (rleft le f thr smp)) ->
+  (forall c, (c < k)%nat -> rwfreq (rright le f thr smp) c
+                            <= rwfreq (rright le f thr smp) a + sl * rweight (rright le f thr smp)) ->
+  forall c, (c < k)%nat -> rwfreq smp c <= rwfreq smp a + sl * rweight smp.
 Proof. exact merge_modal. Qed.
 
 (** feature importances (model of relative_impurity_decrease over the reals): for a tree whose root
@@ -117,6 +146,27 @@ Theorem importance_nonneg_sum_one : forall nf d f thr dec l r,
   (forall x, In x (relative_impurity_decrease R_ops nf (Node d f thr dec l r)) -> 0 <= x) /\
   Rsum (relative_impurity_decrease R_ops nf (Node d f thr dec l r)) = 1.
 Proof. intros nf d f thr dec l r. exact (importance_ok nf d f thr dec l r). Qed.
+
+(** the same for ANY well-formed tree with at least one split ([well_formed_tree nf t]: every split
+    is on a feature below nf and reports a positive decrease): the normalised impurity-decrease
+    importances ([relative_impurity_decrease] = feature_importance) are non-negative ... *)
+Theorem importances_nonneg : forall nf t,
+  well_formed_tree nf t -> is_leaf t = false ->
+  forall x, In x (relative_impurity_decrease R_ops nf t) -> 0 <= x.
+Proof. intros nf t W L. exact (proj1 (wf_importances nf t W L)). Qed.
+
+(** ... and sum to one over the reals (one entry per feature) *)
+Theorem importances_sum_to_one : forall nf t,
+  well_formed_tree nf t -> is_leaf t = false ->
+  length (relative_impurity_decrease R_ops nf t) = nf /\
+  Rsum (relative_impurity_decrease R_ops nf t) = 1.
+Proof. intros nf t W L. split; [apply importances_length|exact (proj2 (wf_importances nf t W L))]. Qed.
+
+(** every tree that satisfies the specification (in particular every tree the checker accepts) under
+    a positive min_impurity_decrease - the parameter guard enforces one - is well formed *)
+Theorem specified_tree_is_well_formed : forall P imp itol smp t imps,
+  tree_spec P imp itol smp t imps -> 0 < rp_mid P -> well_formed_tree (rp_nfeat P) t.
+Proof. intros P imp itol smp t imps (_ & H & _) Hm. exact (spec_well_formed P imp Hm t smp 0%nat H). Qed.
 
 (** the model of TreeNode::fit + prune honours max_depth for every dataset, every parameter set and
     every arithmetic (f32/f64 execution as well as exact reals) *)
